@@ -158,6 +158,130 @@ func init() {
 			repB, wait, repB, wait}
 	}
 
+	// rejail: two reports of one reporter; the first is disputed as minor (ten minutes of jail), the second a block later
+	// as warning (release possible at once) while the reporter is still jailed
+	fragments["rejail"] = func(g *Gen) []func() [][]byte {
+		if g.c.W.Cfg.NumVals < 2 {
+			return nil
+		}
+		a := g.c.W.Vals[1].Op
+		var heights []uint64
+		report := func() [][]byte {
+			out := g.reportCycle(a, 5151)
+			if out != nil {
+				heights = append(heights, uint64(g.c.Height+1))
+			}
+			return out
+		}
+		dispute := func(k int, cat disputetypes.DisputeCategory, pct int64) func() [][]byte {
+			return func() [][]byte {
+				s := g.free(g.user)
+				if s == nil || len(heights) <= k {
+					return nil
+				}
+				for i := len(g.Reports) - 1; i >= 0; i-- {
+					r := g.Reports[i].R
+					if r.Reporter == a.Bech() && r.BlockNumber == heights[k] {
+						full := int64(r.Power) * 1_000_000 * pct / 100
+						return [][]byte{g.tx(s, &disputetypes.MsgProposeDispute{Creator: s.Bech(), Report: &r, DisputeCategory: cat, Fee: rawCoin(full)})}
+					}
+				}
+				return nil
+			}
+		}
+		return []func() [][]byte{wait, wait, wait, wait, wait, wait, report, report, report, wait, wait,
+			dispute(0, disputetypes.Minor, 5), dispute(1, disputetypes.Warning, 1), wait}
+	}
+
+	// exactFivePercent: the bridge validator set is moved away from the set of the last checkpoint by EXACTLY five per
+	// cent of that set's power (a delegation to one validator and an undelegation from another, so that total stake -
+	// and the 5 % / 12 h admission rule - is not touched); tried four times in a history
+	fragments["exactFivePercent"] = func(g *Gen) []func() [][]byte {
+		exact := func() [][]byte {
+			ctx := g.c.CommittedCtx()
+			stored, err := g.c.App.BridgeKeeper.BridgeValset.Get(ctx)
+			if err != nil {
+				return nil
+			}
+			cur, err := g.c.App.BridgeKeeper.GetCurrentValidatorSetEVMCompatible(ctx)
+			if err != nil || cur == nil {
+				return nil
+			}
+			total, delta := int64(0), int64(0)
+			diff := map[string]int64{} // current minus stored, per EVM address
+			for _, v := range stored.BridgeValidatorSet {
+				total += int64(v.Power)
+				diff[string(v.EthereumAddress)] -= int64(v.Power)
+			}
+			for _, v := range cur.BridgeValidatorSet {
+				diff[string(v.EthereumAddress)] += int64(v.Power)
+			}
+			for _, d := range diff {
+				if d < 0 {
+					d = -d
+				}
+				delta += d
+			}
+			target := (total + 19) / 20
+			if total == 0 || target*1_000_000/total != 50_000 || delta >= target {
+				return nil
+			}
+			need := target - delta
+			up, down := need-need/2, need/2
+			var out [][]byte
+			var upVal, downVal *ValKeys
+			for _, k := range g.c.W.Vals[:g.c.W.Cfg.NumVals] {
+				d, in := diff[string(k.EVMAddress())]
+				if !in {
+					continue
+				}
+				if d >= 0 && upVal == nil {
+					upVal = k
+				} else if d <= 0 && downVal == nil {
+					downVal = k
+				}
+			}
+			if upVal == nil {
+				return nil
+			}
+			if downVal == nil || g.tb.Used(downVal.Op) {
+				up, down = need, 0
+			}
+			if s := g.free(g.user); s != nil && up > 0 {
+				out = append(out, g.tx(s, &stakingtypes.MsgDelegate{DelegatorAddress: s.Bech(), ValidatorAddress: upVal.ValAdr.String(), Amount: sdk.NewInt64Coin(Denom, up*1_000_000)}))
+			}
+			if down > 0 {
+				out = append(out, g.tx(downVal.Op, &stakingtypes.MsgUndelegate{DelegatorAddress: downVal.Op.Bech(), ValidatorAddress: downVal.ValAdr.String(), Amount: sdk.NewInt64Coin(Denom, down*1_000_000)}))
+			}
+			return out
+		}
+		steps := []func() [][]byte{wait, wait, wait, wait, wait, wait, wait, wait}
+		for i := 0; i < 4; i++ {
+			steps = append(steps, exact, wait, wait, wait, wait, wait)
+		}
+		return steps
+	}
+
+	// cyclelistMidRound: governance replaces the cycle list (by a list with the same queries) while two reporters report
+	// the scheduled query in every block, so that whichever block the proposal executes in, the scheduled query's open,
+	// untipped round already holds reports
+	fragments["cyclelistMidRound"] = func(g *Gen) []func() [][]byte {
+		steps := []func() [][]byte{wait, wait, wait, wait, wait, wait}
+		cl := [][]byte{g.spots[0], g.spots[1], g.spots[2], g.spots[3]}
+		steps = append(steps, g.govSteps(&oracletypes.MsgUpdateCyclelist{Authority: govAddr(), Cyclelist: cl})...)
+		for i := 0; i < 40; i++ {
+			i := i
+			steps = append(steps, func() [][]byte {
+				var out [][]byte
+				for k := 0; k < 2 && k < g.c.W.Cfg.NumVals; k++ {
+					out = append(out, g.reportCycle(g.c.W.Vals[(i+k)%g.c.W.Cfg.NumVals].Op, int64(3000+i))...)
+				}
+				return out
+			})
+		}
+		return steps
+	}
+
 	// twoUnbondings: a selector's stake backs a report, is then undelegated completely in two steps (two unbonding
 	// entries), and the report is disputed (minor): the selector's share has to come out of the first entry only
 	fragments["twoUnbondings"] = func(g *Gen) []func() [][]byte {
